@@ -356,9 +356,44 @@ def _b_all(I, a, k):
     return True
 
 
+def _sorted_reclist(I, v, keyf):
+    """sorted(list of records, key=f): a fresh list that is a permutation of v (ghost permutation array, injective,
+    field-wise equal) and ordered by the key (library contract of sorted; stability is not needed by the callers)"""
+    L = _L()
+    if keyf is None:
+        raise Unsupported('sorted of records without key')
+    n = v.n
+    new = SRecList(n, {k2: (kind, None if kind == 'any' else z3.Const(I.p.fresh_name(f'sorted_{k2}'), arr.sort()))
+                       for k2, (kind, arr) in v.fields.items()}, v.cls)
+    perm = z3.Const(I.p.fresh_name('perm'), z3.ArraySort(z3.IntSort(), z3.IntSort()))
+    a_ = z3.Int(I.p.fresh_name('q_a'))
+    b_ = z3.Int(I.p.fresh_name('q_b'))
+    tn = I.term(n)
+    eqs = []
+    for k2, (kind, arr) in v.fields.items():
+        if kind == 'any':
+            continue
+        eqs.append(z3.Select(new.fields[k2][1], a_) == z3.Select(arr, z3.Select(perm, a_)))
+    I.p.assume(z3.ForAll([a_], z3.Implies(z3.And(a_ >= 0, a_ < tn),
+                                          z3.And(z3.Select(perm, a_) >= 0, z3.Select(perm, a_) < tn, *eqs))))
+    I.p.assume(z3.ForAll([a_, b_], z3.Implies(z3.And(a_ >= 0, a_ < b_, b_ < tn), z3.Select(perm, a_) != z3.Select(perm, b_))))
+    I.noforking += 1
+    try:
+        ka = I.call(keyf, [L.RecView(new, Sym(INT, a_))], {})
+        kb = I.call(keyf, [L.RecView(new, Sym(INT, b_))], {})
+    finally:
+        I.noforking -= 1
+    I.p.assume(z3.ForAll([a_, b_], z3.Implies(z3.And(a_ >= 0, a_ < b_, b_ < tn), I.term(ka) <= I.term(kb))))
+    return new
+
+
 def _b_sorted(I, a, k):
     L = _L()
     v = I.resolve(a[0])
+    if isinstance(v, SRecList):
+        if k.get('reverse'):
+            raise Unsupported('sorted reverse of a symbolic list')
+        return _sorted_reclist(I, v, k.get('key'))
     items = I.iterate_concrete(v)
     keyf = k.get('key')
     keys = [I.call(keyf, [x], {}) if keyf is not None else x for x in items]
@@ -382,6 +417,8 @@ def _b_sorted(I, a, k):
 
 def _b_filter(I, a, k):
     f, seq = a
+    if f is None and isinstance(I.resolve(seq), SRecList):
+        return I.resolve(seq)        # every element is an object (truthy)
     out = []
     for x in I.iterate_concrete(seq):
         if f is None:
@@ -794,6 +831,8 @@ def recview_get(I, rv, name):
     if fld is None:
         raise PyExc('AttributeError', name)
     kind, arr = fld
+    if kind == 'any':
+        return I.unknown(f'untracked record field {name}')
     return L.elem_value(I, z3.Select(arr, I.term(rv.i)), kind)
 
 
@@ -832,12 +871,18 @@ def call_method(I, recv, name, args, kwargs):
     if isinstance(recv, SRecList):
         if name == 'append':
             o = I.resolve(args[0])
+            if isinstance(o, L.RecView):
+                L.reclist_store(I, recv, I.term(recv.n), o)
+                recv.n = I.binop(ast.Add, recv.n, 1)
+                return None
             if not isinstance(o, Obj):
                 raise Unsupported('append of a non-object to a record list')
             tn = I.term(recv.n)
             for fname, (kind, arr) in list(recv.fields.items()):
                 if fname not in o.fields:
                     raise Unsupported(f'appended object lacks field {fname}')
+                if kind == 'any':
+                    continue
                 recv.fields[fname] = (kind, z3.Store(arr, tn, L.elem_term(I, I.resolve(o.fields[fname]), kind)))
             for fname in o.fields:
                 if fname not in recv.fields:
@@ -1222,7 +1267,8 @@ def fresh_like(I, v, hint):
         n = I.fresh(INT, hint + '_n')
         I.p.assume(n.t >= 0)
         v.n = n
-        v.fields = {k: (kind, z3.Const(I.p.fresh_name(f'{hint}_{k}'), arr.sort())) for k, (kind, arr) in v.fields.items()}
+        v.fields = {k: (kind, None if kind == 'any' else z3.Const(I.p.fresh_name(f'{hint}_{k}'), arr.sort()))
+                    for k, (kind, arr) in v.fields.items()}
         return v
     if isinstance(v, SOpt):
         return SOpt(z3.Bool(I.p.fresh_name(hint + '_none')), fresh_like(I, v.val, hint), v.absent)
